@@ -7,6 +7,8 @@ Line protocol for C13:  `c13 <op> <type> <fmt> <message tokens…>`
 * `rt`      : `load (dump_fmt m)`                         → `ok <tokens of the loaded message>` | `err <stage> <kind>`
 * `redump`  : `dump_f2 (load (dump_fmt m))` (`fmt` = `kvn>xml` …) → `ok` | `err <stage> <kind>`
 * `stamp <opm|oem|tdm> <TIME_SYSTEM> <scale> <clock µs> <off scale> <off TIME_SYSTEM>` → `<clock written> <label read back>`
+* `segs <oem|tdm> <nseg> {<n> {<clock µs> <scale>}ⁿ}… <k> {<scale> <off>}ᵏ` → per segment `<n> {<clock read back> <label>}ⁿ`
+              (a message of several segments, each labelled with the scale of its first date; `off` = clock of the scale − reference)
 * `window <date µs> <duration µs> <start|median|stop>` → `<start> <stop>` of the maneuver read back | `none`
 * `form <kvn|xml> <form>` → `ok` | `err dump AttributeError`      (OEM writers and the form of the points)
 * `center <kvn|xml> <centre name, blanks as _>` → `<CENTER_NAME written> <frame name the readers rebuild>` (blanks as _)
@@ -212,6 +214,19 @@ def ext : List String → Option String
     let off := fun (s : String) => if s = msg then oM else if s = scale then oS else 0
     let r := readBack msg (written conv off msg ⟨c, scale⟩)
     pure (toString r.clock ++ " " ++ r.scale)
+  | "segs" :: site :: toks => do
+    let p : P (List (List Stamp) × List (String × Int)) := do
+      let segs ← rep (← nat) (do rep (← nat) (do let c ← int; let sc ← tok; pure (⟨c, sc⟩ : Stamp)))
+      let offs ← rep (← nat) (do let sc ← tok; let o ← int; pure (sc, o))
+      pure (segs, offs)
+    let ((segs, offs), rest) ← p toks
+    if ¬ rest.isEmpty then none
+    let (conv, ofSeg) ← (match site with
+      | "oem" => some (Generated.oemPointScaleConv, Generated.oemPointScaleOfSegment)
+      | "tdm" => some (Generated.tdmObsScaleConv, Generated.tdmObsScaleOfSegment) | _ => none)
+    let off := fun (sc : String) => (offs.lookup sc).getD 0
+    pure <| joinWith " " ((segsBack conv ofSeg off segs).flatMap fun seg =>
+      toString seg.length :: seg.flatMap fun st => [toString st.clock, st.scale])
   | ["window", date, dur, pos] => do
     let d ← date.toInt?
     let u ← dur.toInt?
